@@ -313,7 +313,8 @@ type rgot struct {
 }
 
 func runRetained(r *rec.Recorder, n int, s scenario) {
-	a, b := dstate.New(1), dstate.New(2)
+	a, b, c := dstate.New(1), dstate.New(2), dstate.New(3)
+	var all [][]byte
 	known := map[string][]string{}
 	r.Emit(rec.Ev{"op": "new", "scn": n, "mode": "retained"})
 	guard := func(f func()) (panicked bool) {
@@ -364,6 +365,7 @@ func runRetained(r *rec.Recorder, n int, s scenario) {
 			}
 			for _, m := range a.Drain() {
 				b.State.Distributor().NotifyMsg(m)
+				all = append(all, m)
 			}
 		})
 		r.Emit(rec.Ev{"op": "pub", "t": o.T, "p": o.P, "panic": pn})
@@ -372,6 +374,16 @@ func runRetained(r *rec.Recorder, n int, s scenario) {
 		}
 		if s.Probe == "each" || i == len(s.Ops)-1 {
 			if !probe(a, "origin") || !probe(b, "replica") {
+				return
+			}
+		}
+		if i == len(s.Ops)-1 {
+			// a third node gets every broadcast newest first, each twice: a clear must win against the older publish that follows it
+			for j := len(all) - 1; j >= 0; j-- {
+				c.State.Distributor().NotifyMsg(all[j])
+				c.State.Distributor().NotifyMsg(all[j])
+			}
+			if !probe(c, "reordered-replica") {
 				return
 			}
 		}
